@@ -42,6 +42,20 @@ ROUTES = ("v", "t", "f", "g")
 # parsing (strict in the same way as the driver)
 
 
+
+def _wrapped(proxy):
+    """the node a TracingParameterNodeAtInstant wraps, read from the instance dictionary (never through `__getattr__`, which
+    forwards to the node's CHILDREN): the private attribute of repair 5c4ca09, or the public one of earlier trees"""
+    d = vars(proxy)
+    for k in ("_TracingParameterNodeAtInstant__node", "parameter_node_at_instant"):
+        if k in d:
+            return d[k]
+    for v in d.values():            # a tree under test that names it differently
+        if hasattr(v, "_instant_str"):
+            return v
+    raise AttributeError("no wrapped node found in the tracing proxy")
+
+
 def _nat(s: str) -> int:
     if not re.fullmatch(r"[0-9]+", s):
         raise Malformed(s)
@@ -516,7 +530,7 @@ def show_rows(x) -> str:
     from openfisca_core.parameters import VectorialParameterNodeAtInstant
     from openfisca_core.tracers import TracingParameterNodeAtInstant
     if isinstance(x, TracingParameterNodeAtInstant):
-        x = x.parameter_node_at_instant
+        x = _wrapped(x)
     if isinstance(x, VectorialParameterNodeAtInstant):
         x = x.vector
     if isinstance(x, np.ndarray) and x.ndim == 1:
@@ -741,7 +755,7 @@ class World:
                 return "ERR"
             if isinstance(x, TracingParameterNodeAtInstant):
                 # the wrapper's own iteration and membership test must be the wrapped node's
-                inner = x.parameter_node_at_instant
+                inner = _wrapped(x)
                 try:
                     names = sorted(inner)
                     if sorted(x) != names or not all(k in x for k in names) or "__no_such_child__" in x:
@@ -831,7 +845,7 @@ class World:
         if probe and self.rs.random() < 0.3:
             from openfisca_core.parameters import VectorialParameterNodeAtInstant
             from openfisca_core.tracers import TracingParameterNodeAtInstant
-            arr = res.parameter_node_at_instant if isinstance(res, TracingParameterNodeAtInstant) else res
+            arr = _wrapped(res) if isinstance(res, TracingParameterNodeAtInstant) else res
             arr = arr.vector if isinstance(arr, VectorialParameterNodeAtInstant) else arr
             if isinstance(arr, np.ndarray) and arr.size:
                 arr[...] = np.zeros((), dtype=arr.dtype)
